@@ -1639,9 +1639,16 @@ fn gen_f(
         }
     }
     // power series and batch inversion at the batching threshold and at the degenerate sizes
-    for nn in [0usize, 1, 2, 3, 1023, 1024, 1025] {
+    // 4096 / 4100 / 8200: with the `concurrent` build variant (3 worker threads, rounded up to 4 batches) the
+    // series is split into batches only from 1024 elements per batch on
+    let series_sizes: Vec<usize> =
+        if light { vec![0, 1, 2, 3, 1023, 1024, 1025] } else { vec![0, 1, 2, 3, 1023, 1024, 1025, 4096, 4100, 8200] };
+    for nn in series_sizes {
         for b in [bset[0].clone(), bset[1].clone(), bset[3].clone(), g.el()] {
             if nn > 3 && (b == bset[0] || b == bset[1]) && !thorough {
+                continue;
+            }
+            if nn > 4000 && b == bset[3] && !thorough {
                 continue;
             }
             emit(format!("{} pser {} {}", f, b, nn));
@@ -1654,7 +1661,7 @@ fn gen_f(
     } else if light {
         vec![1024usize, 1025]
     } else {
-        vec![1023usize, 1024, 1025]
+        vec![1023usize, 1024, 1025, 4099]
     } {
         // zeros at the chunk borders and at random positions
         let mut v: Vec<String> = (0..nn).map(|_| g.nz_el()).collect();
